@@ -47,6 +47,14 @@ def scratch_base(name):
     base = os.environ.get("VERIF_SCRATCH")
     if not base:
         base = "/dev/shm" if os.path.isdir("/dev/shm") and os.access("/dev/shm", os.W_OK) else WORK
+    # remove scratch left behind by runs that were killed
+    try:
+        for ent in os.listdir(base):
+            m = re.match(r"verif-scratch-.*-(\d+)$", ent)
+            if m and not os.path.exists("/proc/%s" % m.group(1)):
+                shutil.rmtree(os.path.join(base, ent), ignore_errors=True)
+    except OSError:
+        pass
     d = os.path.join(base, "verif-scratch-%s-%d" % (name, os.getpid()))
     shutil.rmtree(d, ignore_errors=True)
     os.makedirs(d, exist_ok=True)
